@@ -1,4 +1,4 @@
-import SupervisorModel.Model.Pool
+import SupervisorModel.Lemmas.Pool
 /-
   C09 — events reach exactly the subscribed pools, in order, and are not lost.
   Property theorems only.
@@ -44,6 +44,112 @@ theorem offered_to_subscribers (pools : List PoolSt) (c : Cls) (i : Nat) :
 
 example : (0 : Nat) ∈ notified (callbacks [{ name := "a", bufSize := 3, subs := [.TICK] }]) .TICK_5 := by decide
 example : (0 : Nat) ∉ notified (callbacks [{ name := "a", bufSize := 3, subs := [.TICK_60] }]) .TICK_5 := by decide
+
+/-- **buffer_bounded**: for every history (every list of operations: notifications, listener output in any
+    fragmentation, pool transitions, pipe faults, process state changes, deaths, respawns) every pool whose
+    `buffer_size` is at least 1 holds at most `buffer_size` undelivered events, provided it did at the start
+    (a new pool's buffer is empty). -/
+theorem buffer_bounded (h : Bytes → Listener.HRes) (w0 : W) (ops : List Op) (j : Nat) (p0 p : PoolSt)
+    (h0 : w0.pools[j]? = some p0) (hsz : 1 ≤ p0.bufSize) (hb0 : (p0.buffer.length : Int) ≤ p0.bufSize)
+    (hp : (exec h w0 ops).pools[j]? = some p) :
+    p.bufSize = p0.bufSize ∧ (p.buffer.length : Int) ≤ p.bufSize := by
+  obtain ⟨q, hq, g⟩ := (evolves_exec h w0 ops).2 j p hp
+  rw [h0] at hq
+  cases hq
+  exact ⟨g.1, g.2.2 hsz hb0⟩
+
+/-- the number of pools never changes either -/
+theorem pools_fixed (h : Bytes → Listener.HRes) (w0 : W) (ops : List Op) :
+    (exec h w0 ops).pools.length = w0.pools.length := (evolves_exec h w0 ops).1
+
+example : ∃ p0 : PoolSt, (1 : Int) ≤ p0.bufSize ∧ (p0.buffer.length : Int) ≤ p0.bufSize :=
+  ⟨{ name := "a", bufSize := 1, subs := [.TICK] }, by decide, by decide⟩
+
+/-- without the size hypothesis the bound fails: `buffer_size = 0` still buffers one event
+    (`if len(buffer) >= size: if buffer: pop`), so the statement's "at most buffer_size" needs `buffer_size ≥ 1`
+    (options.py rejects `buffer_size < 1`, so configured pools satisfy the hypothesis) -/
+theorem buffer_size_zero_holds_one :
+    ((notify .TICK_5 [] { pools := [{ name := "a", bufSize := 0, subs := [.TICK] }] }).pools.map (·.buffer)) = [[0]] := by
+  decide
+
+/-- **reject_isolated**: an `EventRejectedEvent` coming from a listener of pool `pi` leaves every other
+    pool exactly as it was (buffer, poolserial counter, listeners) -/
+theorem reject_isolated (pi e : Nat) (w : W) (j : Nat) (hj : j ≠ pi) :
+    (rejected pi e w).pools[j]? = w.pools[j]? := rejected_other pi e w j hj
+
+/-- **offered_once** (universal): `notify` calls a pool's `_acceptEvent` once per matching subscription, but
+    the state it leaves is exactly the one obtained by offering the event to each matching pool **once**
+    (first occurrences, in subscription order): the early return of `_acceptEvent` (fix F16) makes every
+    repeated offer the identity -- for every world, every event class and every subscription table. -/
+theorem offered_once (c : Cls) (payload : Bytes) (w : W) (he : w.err = none) :
+    notify c payload w =
+      offer w.events.length (keepFirst (notified (callbacks w.pools) c))
+        { w with events := w.events ++ [{ cls := c, payload := payload }] } ∧
+    (keepFirst (notified (callbacks w.pools) c)).Nodup ∧
+    (∀ i, i ∈ keepFirst (notified (callbacks w.pools) c) ↔ i ∈ notified (callbacks w.pools) c) := by
+  refine ⟨?_, nodup_keepFirstN _ _ (Nat.le_refl _), fun i => mem_keepFirstN i _ _ (Nat.le_refl _)⟩
+  rw [notify_eq_offer c payload w he]
+  exact offer_keepFirstN _ _ _ _ (Nat.le_refl _)
+
+/-- offering an event a second time to the same pool changes nothing, whatever happened in between to other pools -/
+theorem second_offer_is_identity (i e : Nat) (head : Bool) (w : W) :
+    acceptEvent i e false (acceptEvent i e head w) = acceptEvent i e head w :=
+  acceptEvent_skip_id i e _ (skip_after i e head w)
+
+/-- **overflow_drops_oldest_only** (universal): whenever `_acceptEvent` puts event `e` into pool `i`'s buffer (new event
+    at the tail, re-buffered event at the head), the only event that can leave the buffer is its oldest (first)
+    element, exactly when the buffer already holds `buffer_size` events, and then with exactly one error-log entry
+    naming it; otherwise nothing is logged and nothing leaves. -/
+theorem overflow_drops_oldest_only (i e : Nat) (head : Bool) (w : W) (p : PoolSt) (hp : w.pools[i]? = some p) :
+    ∃ p', (insertEv i e head w).pools[i]? = some p' ∧
+      (overflowed p = true ↔ p.bufSize ≤ (p.buffer.length : Int) ∧ p.buffer ≠ []) ∧
+      p'.buffer = (if head then e :: (if overflowed p then p.buffer.drop 1 else p.buffer)
+                   else (if overflowed p then p.buffer.drop 1 else p.buffer) ++ [e]) ∧
+      (insertEv i e head w).outs = w.outs ++
+        (if overflowed p then
+          match p.buffer with
+          | d :: _ => [.discard i d (((w.events[d]?).bind (·.serial)).getD (-1))]
+          | [] => []
+         else []) := by
+  obtain ⟨h1, h2, _⟩ := insertEv_spec i e head w p hp
+  exact ⟨_, h1, overflowed_iff p, (insBuf_fields e head p).2.2.2.2.2, h2⟩
+
+/-- **reject_returns_to_head** (universal): an `EventRejectedEvent` from a listener of pool `pi` for an event that
+    pool had accepted puts the event at the head of pool `pi`'s buffer (dropping, with a log entry, the oldest
+    buffered event if the buffer is full) -/
+theorem reject_returns_to_head (pi e : Nat) (w : W) (h : Acc w pi e) :
+    ∃ p p', w.pools[pi]? = some p ∧ (rejected pi e w).pools[pi]? = some p' ∧
+      p'.buffer = e :: (if overflowed p then p.buffer.drop 1 else p.buffer) := by
+  obtain ⟨p, ev, hp, hev, hl, hs⟩ := h
+  have hpi : pi < w.pools.length := (List.getElem?_eq_some_iff.mp hp).1
+  rw [rejected_eq pi e w hpi, rebuffer_eq_insertEv pi e w ⟨p, ev, hp, hev, hl, hs⟩]
+  obtain ⟨h1, _⟩ := insertEv_spec pi e true w p hp
+  exact ⟨p, _, hp, h1, by rw [(insBuf_fields e true p).2.2.2.2.2]; simp⟩
+
+/-- **fifo_dispatch** (universal): one `dispatch()` of a pool that respects its bound hands events to listeners in
+    buffer order -- oldest first -- and stops at the first event no listener can take: the events handed over are
+    exactly a prefix `buffer.take k` of the buffer, in that order; the remaining `buffer.drop k` stays buffered in the
+    same order (the event that could not be delivered is back at the head); nothing is discarded or logged.
+    Together with `overflow_drops_oldest_only` (new events join at the tail, the oldest leaves on overflow) and
+    `reject_returns_to_head` this is the ordering part of the statement. -/
+theorem fifo_dispatch (pi fuel : Nat) (w : W) (p : PoolSt) (he : w.err = none) (hp : w.pools[pi]? = some p)
+    (hs : 1 ≤ p.bufSize) (hb : (p.buffer.length : Int) ≤ p.bufSize)
+    (hv : ∀ e ∈ p.buffer, (w.events[e]?).isSome = true) :
+    ∃ (k : Nat) (p' : PoolSt) (l : List POut), (dispatch pi fuel w).pools[pi]? = some p' ∧
+      p'.buffer = p.buffer.drop k ∧
+      (dispatch pi fuel w).outs = w.outs ++ l ∧ sentBy pi l = p.buffer.take k ∧
+      (∀ o ∈ l, ∀ q d s, o ≠ POut.discard q d s) := by
+  obtain ⟨k, p', l, h1, h2, _, h4, h5, h6⟩ := dispatch_fifo pi fuel w p he hp hs hb hv
+  exact ⟨k, p', l, h1, h2, h4, h5, h6⟩
+
+/-- the hypotheses are satisfiable: a pool within its bound whose buffered ids are known events -/
+example :
+    let w : W := { pools := [{ name := "a", bufSize := 3, subs := [.TICK], buffer := [0, 1] }],
+                   events := [{ cls := .TICK_5, payload := [] }, { cls := .TICK_5, payload := [] }] }
+    w.err = none ∧ (∃ p, w.pools[0]? = some p ∧ 1 ≤ p.bufSize ∧ (p.buffer.length : Int) ≤ p.bufSize ∧
+      ∀ e ∈ p.buffer, (w.events[e]?).isSome = true) := by
+  refine ⟨rfl, _, rfl, by decide, by decide, ?_⟩
+  intro e he; simp at he; rcases he with rfl | rfl <;> rfl
 
 /-! ### serials -/
 
